@@ -4,7 +4,7 @@ C11 driver.
   wf <cfg> <file>                         → 1 | 0: the token hypotheses of print_faithful hold
   accept-print <cfg> <file> <output-hex>  → ok | bad-…   (the implementation's text, read back with
                                             splitNL/lexLine/parseFile, says what the file says)
-  accept-asm <cfg> <file> <n> fn*         → ok | bad-…   (decoded object code: instruction order per
+  accept-asm <cfg> <file> <output-hex> <n> fn* → ok | bad-…   (decoded object code: instruction order per
                                             symbol and branch targets against the label binding)
      fn := <sym-hex> <argsize> <nosplit 0/1> <n> (line addr target+1)* <n> (instrIdx label-hex)* <n> (label-hex instrIdx)*
 -/
@@ -102,9 +102,9 @@ def asmFnTok : P AsmFn := fun ts => do
   let (lts, ts) ← listOf ltTok ts
   some (⟨sym, args, nosplit, ents, brs, lts⟩, ts)
 
-/-- Per function of the printed file: line number of the TEXT line and of every
-instruction line (1-based; one structured line is one text line). -/
-def fnLineNumbers : List SLine → Nat → List (Nat × List Nat) → List (Nat × List Nat)
+/-- Per function of the implementation's text: line number of the TEXT line and
+of every instruction line (1-based). -/
+def fnLineNumbers : List LLine → Nat → List (Nat × List Nat) → List (Nat × List Nat)
   | [], _, acc => acc.reverse
   | .text .. :: ls, n, acc => fnLineNumbers ls (n + 1) ((n, []) :: acc)
   | .instr .. :: ls, n, acc =>
@@ -171,8 +171,8 @@ def acceptAsmFn (f : Function) (ln : Nat × List Nat) (a : AsmFn) : Option Strin
       | _ => some s!"bad-branch-decode {i}"
     | _, _ => some s!"bad-branch-label {i}"))
 
-def acceptAsm (cfg : Config) (f : File) (fns : List AsmFn) : String :=
-  let lns := fnLineNumbers (printFile names cfg f) 1 []
+def acceptAsm (f : File) (out : Txt) (fns : List AsmFn) : String :=
+  let lns := fnLineNumbers ((splitNL out).dropLast.map lexLine) 1 []
   let fs := f.functions
   if fs.length != fns.length || lns.length != fs.length then "bad-symbol-count" else
   match firstBad (List.zipWith (fun (p : Function × (Nat × List Nat)) a => acceptAsmFn p.1 p.2 a) (fs.zip lns) fns) with
@@ -195,10 +195,11 @@ def handle : Handler
     let (out, _) ← txtTok ts
     some (acceptPrint f out)
   | "accept-asm" :: ts => do
-    let (cfg, ts) ← cfgTok ts
+    let (_, ts) ← cfgTok ts
     let (f, ts) ← fileTok ts
+    let (out, ts) ← txtTok ts
     let (fns, _) ← listOf asmFnTok ts
-    some (acceptAsm cfg f fns)
+    some (acceptAsm f out fns)
   -- verdicts measured by the harness with the Go toolchain / binutils
   | "accept-assembles" :: r :: _ => some (if r == "ok" then "ok" else "bad-assembler-rejects " ++ r)
   | "accept-decode" :: r :: _ => some (if r == "ok" then "ok" else "bad-decode " ++ r)
